@@ -146,7 +146,7 @@ def host_cases(rng, tier, n):
         outer = None
         for _ in range(n_top):
             t = L.rand_tree(rng, rng.randint(1, 6), clean=rng.random() < 0.6, top_ns=top)
-            if rng.random() < 0.12 and kind != "choice":
+            if rng.random() < 0.12:
                 # QName-typed primitive whose prefix is declared on the element itself / re-bound / defaulted
                 t, o = L.qname_leaf(rng, t["q"], t["tl"])
                 outer = outer or o
@@ -154,10 +154,8 @@ def host_cases(rng, tier, n):
                     t["t"] = rng.choice(["zz:bar", "a b", "w:"])      # not a QName in scope (correspondence only)
                 forest.append(t)
                 continue
-            if rng.random() < 0.12 and not (kind == "choice" and "##other" in nsmode):
-                # an xsi:type'd primitive as direct wildcard content (in a compound field it is written under the
-                # placeholder name of the wildcard choice, "{!ns}any" for ##other, which lxml refuses: finding
-                # C11-choice-xsitype-renamed, not pursued further)
+            if rng.random() < 0.12:
+                # an xsi:type'd primitive as direct wildcard content
                 ty, tx = rng.choice([("xs:string", "s"), ("xs:boolean", "true"), ("xs:short", "5"), ("xs:int", "5"),
                                      ("xs:boolean", "1"), ("xs:string", ""), ("p:unknown", "u")])
                 t = L.node(t["q"], [[L.XSI_TYPE, ty]] + ([["k", "v"]] if rng.random() < 0.3 else []), tx, [], t["tl"])
@@ -242,20 +240,22 @@ def _neut_prefixed(n, depth):
     n["a"] = [[k, ("v" if (k != L.XSI_TYPE and _declared_prefixed(n, v)) else v)] for k, v in n["a"]]
 
 
-def _neut_nil(n, depth):
-    n["a"] = [x for x in n["a"] if x[0] != L.XSI_NIL]
+def _tail_lost(a, n):
+    """outside mixed content a DerivedElement has no slot for the tail of its element"""
+    return a["kind"] != "mixed" and not L.is_blank(n["tl"])
 
 
-def _neut_typed_attrs(n, depth):
+def _neut_typed_attrs(n, depth, a):
     if is_typed_top(n, depth):
         n["a"] = [x for x in n["a"] if x[0] == L.XSI_TYPE]
-        n["tl"] = None
+        if _tail_lost(a, n):
+            n["tl"] = None
 
 
 CANON_TYPED = {("xs:int", "5"): ("xs:short", "5"), ("xs:boolean", "1"): ("xs:boolean", "true")}
 
 
-def _neut_typed_canon(n, depth):
+def _neut_typed_canon(n, depth, a):
     if is_typed_top(n, depth):
         ty = next(v for k, v in n["a"] if k == L.XSI_TYPE)
         if (ty, n["t"]) in CANON_TYPED:
@@ -264,20 +264,16 @@ def _neut_typed_canon(n, depth):
             n["t"] = t2
 
 
-def _neut_choice_typed(n, depth):
-    if is_typed_top(n, depth):
-        n["a"] = [x for x in n["a"] if x[0] != L.XSI_TYPE]
-
-
+# finding id, trigger(node, depth, args), neutralise(node, depth, args)
 NEUTRALISE = [
-    ("C11-anyattr-prefixed-value", lambda a: True,
-     lambda n, d: any(k != L.XSI_TYPE and _declared_prefixed(n, v) for k, v in n["a"]) and not (d == 0), _neut_prefixed),
-    ("C11-xsi-nil-dropped", lambda a: True, lambda n, d: d > 0 and any(k == L.XSI_NIL for k, v in n["a"]), _neut_nil),
-    ("C11-choice-xsitype-renamed", lambda a: a["kind"] == "choice", is_typed_top, _neut_choice_typed),
-    ("C11-xsitype-primitive-attrs-tail-dropped", lambda a: a["kind"] != "choice",
-     lambda n, d: is_typed_top(n, d) and (len(n["a"]) > 1 or not L.is_blank(n["tl"])), _neut_typed_attrs),
-    ("C11-xsitype-primitive-recanonicalised", lambda a: a["kind"] != "choice",
-     lambda n, d: is_typed_top(n, d) and (next(v for k, v in n["a"] if k == L.XSI_TYPE), n["t"]) in CANON_TYPED, _neut_typed_canon),
+    ("C11-anyattr-prefixed-value",
+     lambda n, d, a: any(k != L.XSI_TYPE and _declared_prefixed(n, v) for k, v in n["a"]) and not (d == 0),
+     lambda n, d, a: _neut_prefixed(n, d)),
+    ("C11-xsitype-primitive-attrs-tail-dropped",
+     lambda n, d, a: is_typed_top(n, d) and (len(n["a"]) > 1 or _tail_lost(a, n)), _neut_typed_attrs),
+    ("C11-xsitype-primitive-recanonicalised",
+     lambda n, d, a: is_typed_top(n, d) and (next(v for k, v in n["a"] if k == L.XSI_TYPE), n["t"]) in CANON_TYPED,
+     _neut_typed_canon),
 ]
 
 
@@ -316,20 +312,20 @@ def oracle_preserve(a):
 
 def covered_preserve(a, msg):
     hits = []
-    for fid, applies, trig, neut in NEUTRALISE:
-        if applies(a) and any(trig(n, d) for n, d in _walk(a["tree"])):
+    for fid, trig, neut in NEUTRALISE:
+        if any(trig(n, d, a) for n, d in _walk(a["tree"])):
             hits.append((fid, neut))
     for fid, neut in hits:
         t2 = copy.deepcopy(a["tree"])
         for n, d in _walk(t2):
-            neut(n, d)
+            neut(n, d, a)
         if oracle_preserve({**a, "tree": t2}) is None:
             return fid
     if len(hits) > 1:
         t2 = copy.deepcopy(a["tree"])
         for fid, neut in hits:
             for n, d in _walk(t2):
-                neut(n, d)
+                neut(n, d, a)
         if oracle_preserve({**a, "tree": t2}) is None:
             return hits[0][0]
     return None
@@ -478,29 +474,17 @@ def f_prefixed():
     return v == "{urn:x}bar", f'k="p:bar" came back as k={v!r}: {xml}'
 
 
-def f_nil():
-    back, xml = _rt("list", '<p:foo xsi:nil="true"/>')
-    v = dict(back["c"][0]["a"]).get(L.XSI_NIL) if back else "?"
-    return v is None, f"xsi:nil on a generic element came back as {v!r}: {xml}"
-
-
 def f_typed_attrs():
-    back, xml = _rt("mixed", '<p:foo xsi:type="xs:string" k="v">s</p:foo>tail')
+    back, xml = _rt("list", '<p:foo xsi:type="xs:string" k="v">s</p:foo>tail')
     v = dict(back["c"][0]["a"]).get("k") if back else "?"
     tl = back["c"][0]["tl"] if back else "?"
-    return v is None and tl is None, f"k='v' and the tail 'tail' of an xsi:type='xs:string' element came back as {v!r} / {tl!r}: {xml}"
+    return v is None and tl is None, f"k='v' and (outside mixed content) the tail of an xsi:type='xs:string' element came back as {v!r} / {tl!r}: {xml}"
 
 
 def f_typed_canon():
     back, xml = _rt("list", '<p:foo xsi:type="xs:int">5</p:foo>')
     v = dict(back["c"][0]["a"]).get(L.XSI_TYPE) if back else "?"
     return v is not None and v.endswith(":short"), f'xsi:type="xs:int" came back as {v!r}: {xml}'
-
-
-def f_choice_renamed():
-    back, xml = _rt("choice", '<p:z xsi:type="xs:boolean">true</p:z>')
-    q = back["c"][0]["q"] if back else "?"
-    return q != "{urn:x}z", f"<p:z xsi:type=\"xs:boolean\"> in a compound field with a wildcard choice came back as <{q}>: {xml}"
 
 
 def f_other_unqualified():
@@ -510,10 +494,8 @@ def f_other_unqualified():
 
 FINDINGS = {
     "C11-anyattr-prefixed-value": f_prefixed,
-    "C11-xsi-nil-dropped": f_nil,
     "C11-xsitype-primitive-attrs-tail-dropped": f_typed_attrs,
     "C11-xsitype-primitive-recanonicalised": f_typed_canon,
-    "C11-choice-xsitype-renamed": f_choice_renamed,
     # not listed in known_findings.json (admission rule, not preservation): replay kept for the maintainer
     "C11-other-admits-unqualified": f_other_unqualified,
 }
@@ -534,7 +516,9 @@ LEVEL_TEXT = (
     "of every well-formed tree (any_roundtrip, by induction on the tree), also as content of a host element for list, "
     "nested-single and mixed wildcards; TreeParser = WildcardNode of any non-nillable wildcard var (tree_parser_same); "
     "match_namespace decides the ##any/##other/##local/##targetNamespace table (match_namespace_spec). "
-    "The three attribute shapes excluded by treeOK are proved to be changed (witness theorems) and replayed on /repo. "
+    "The attribute shapes excluded by treeOK (p:local values, Clark names of datatypes) are shown to be changed; "
+    "xsi:nil is kept (anyattr_xsi_nil_kept); StandardNode keeps the tail in mixed content (standard_mixed_tail) and a "
+    "wildcard choice renders DerivedElements like a wildcard field (choice_wildcard_derived). "
     "Model tied to /repo by differential runs of TreeParser, resolve_namespaces/match_namespace, the real "
     "WildcardNode+convert_any_type+XmlEventWriter pipeline and typed hosts (single/list/mixed/choice x 6 namespace modes)."
 )
